@@ -70,6 +70,8 @@ class Scheduler(interpose.Listener):
         self.prog = {}
         self.spin_budget = 2
         self.vclock = None              # virtual-time clock for sleeping clients (throttle)
+        self.yield_in_txn = False       # also yield at statements inside a held write transaction (threads sharing an object)
+        self.yield_after_release = False  # also yield straight after COMMIT / ROLLBACK released the lock
 
     # ------------------------------------------------------------------ ids
     def fid(self, path):
@@ -96,7 +98,7 @@ class Scheduler(interpose.Listener):
             return v
         return None
 
-    def yield_point(self, kind, desc, path=None):
+    def yield_point(self, kind, desc, path=None, nofault=False):
         c = self.me()
         if c is None:
             return
@@ -109,7 +111,7 @@ class Scheduler(interpose.Listener):
             c.pending = None
             if c.killed:
                 raise Stop()
-        if self.fault is not None:
+        if self.fault is not None and not nofault:
             exc = self.fault(kind, desc, c)
             if exc is not None:
                 raise exc
@@ -138,13 +140,14 @@ class Scheduler(interpose.Listener):
         if c is None:
             return
         self.conn_client[id(conn)] = c.cid
+        c.pending_conn = id(conn)
         head = sql.lstrip()[:6].upper()
         if self.inject is not None and head not in ('COMMIT', 'ROLLBA'):
             exc = self.inject('sql', head, c)
             if exc is not None:
                 raise exc
-        if self.holds_lock(conn) and head not in ('COMMIT', 'ROLLBA'):
-            return                      # inside a held write transaction: not observable
+        if self.holds_lock(conn) and head not in ('COMMIT', 'ROLLBA') and not self.yield_in_txn:
+            return                      # inside a held write transaction: not observable to other connections
         if head == 'COMMIT' and self.holds_lock(conn):
             # snapshot through the writer's own connection, immediately before COMMIT
             conn._verif_snap = self.snapshot(conn)
@@ -180,6 +183,8 @@ class Scheduler(interpose.Listener):
                     self.locks.pop(self.dbpath(conn), None)
                 self.txn.pop(id(conn), None)
                 conn._verif_snap = None
+                if self.yield_after_release:
+                    self.yield_point('post', 'released', nofault=True)
             else:
                 self.emit({'ev': 'sqlerr', 'c': cid, 'what': 'commit'})
         elif head == 'ROLLBA':
@@ -187,6 +192,8 @@ class Scheduler(interpose.Listener):
             if self.holds_lock(conn):
                 self.locks.pop(self.dbpath(conn), None)
             self.txn.pop(id(conn), None)
+            if self.yield_after_release:
+                self.yield_point('post', 'released', nofault=True)
         elif head in WRITE_HEADS:
             if error is not None:
                 self.emit({'ev': 'sqlerr', 'c': cid, 'what': 'write'})
@@ -389,6 +396,41 @@ def random_strategy(rng, stickiness=0.5):
         ids = [c.cid for c in enabled]
         if last[0] in ids and rng.random() < stickiness:
             return enabled[ids.index(last[0])]
+        c = rng.choice(enabled)
+        last[0] = c.cid
+        return c
+    return choose
+
+
+def hunter_strategy(rng, stickiness=0.6):
+    """Random schedules that go for the windows a broken transaction discipline opens: when the running client is
+    about to write OUTSIDE a transaction (on the unchanged tree no data operation does), or has just released the
+    lock, another client is run until it blocks or ends before the first one continues."""
+    last = [None]
+    guest = [None]
+
+    def exposed(c, sched):
+        p = c.pending
+        if p is None:
+            return False
+        if p[0] == 'post':
+            return True
+        return p[0] == 'sql' and p[1] in WRITE_HEADS and not sched.txn.get(getattr(c, 'pending_conn', None))
+
+    def choose(enabled, sched):
+        ids = [c.cid for c in enabled]
+        if guest[0] in ids:
+            return enabled[ids.index(guest[0])]
+        guest[0] = None
+        if last[0] in ids:
+            cur = enabled[ids.index(last[0])]
+            others = [c for c in enabled if c.cid != last[0]]
+            if others and exposed(cur, sched) and rng.random() < 0.7:
+                g = rng.choice(others)
+                guest[0] = g.cid
+                return g
+            if rng.random() < stickiness:
+                return cur
         c = rng.choice(enabled)
         last[0] = c.cid
         return c
